@@ -86,3 +86,83 @@ Print Assumptions C05_monotonicity_range.
 Theorem C05_ratio_symmetric : forall a b : PrimFloat.float, ratio_minmax a b = ratio_minmax b a.
 Proof. exact ratio_minmax_sym. Qed.
 Print Assumptions C05_ratio_symmetric.
+
+(* amp_fraction of a cycle whose volt_amp is NaN stays NaN (pandas rank keeps NaN) *)
+Theorem C05_amp_fraction_nan_keeps_nan : forall va i, i < length va -> isnan (fnth va i) = true ->
+  fnth (amp_fraction va) i = fnan.
+Proof. exact amp_fraction_nan. Qed.
+Print Assumptions C05_amp_fraction_nan_keeps_nan.
+
+(* period consistency, table level: one value per cycle, first and last NaN, interior =
+   period_cons_at *)
+Theorem C05_period_consistency_table : forall d periods l,
+  period_consistency d periods = Ok l ->
+  length l = length periods /\
+  (forall c, c < length periods ->
+     nth c l 0%float = if Nat.eqb c 0 || Nat.eqb c (length periods - 1) then fnan
+                       else period_cons_at d periods c).
+Proof. exact period_consistency_spec. Qed.
+Print Assumptions C05_period_consistency_table.
+
+Theorem C05_period_consistency_interior : forall d periods l c,
+  period_consistency d periods = Ok l -> 1 <= c -> c + 1 < length periods ->
+  nth c l 0%float = period_cons_at d periods c.
+Proof. exact period_consistency_interior. Qed.
+Print Assumptions C05_period_consistency_interior.
+
+(* the ratio of two periods is min/max, and does not depend on the order of the two periods *)
+Theorem C05_period_ratio_is_min_over_max : forall a b,
+  zratio a b = (FloatBase.Z2F (Z.min a b) / FloatBase.Z2F (Z.max a b))%float.
+Proof. exact zratio_def. Qed.
+Print Assumptions C05_period_ratio_is_min_over_max.
+
+Theorem C05_period_ratio_symmetric : forall a b, zratio a b = zratio b a.
+Proof. exact zratio_sym. Qed.
+Print Assumptions C05_period_ratio_symmetric.
+
+(* interior cycle c: the ratio of its period with the next period (direction next), with the
+   previous period (last), or the smaller of the two (both) *)
+Theorem C05_period_consistency_is_the_smaller_of_two_ratios : forall d periods c,
+  period_cons_at d periods c =
+  match d with
+  | Both => fmin2 (zratio (nth c periods 0%Z) (nth (c + 1) periods 0%Z))
+                  (zratio (nth c periods 0%Z) (nth (c - 1) periods 0%Z))
+  | Next => zratio (nth c periods 0%Z) (nth (c + 1) periods 0%Z)
+  | Last => zratio (nth c periods 0%Z) (nth (c - 1) periods 0%Z)
+  end.
+Proof. exact period_cons_at_def. Qed.
+Print Assumptions C05_period_consistency_is_the_smaller_of_two_ratios.
+
+(* fmin2 really is the smaller one, for all non-NaN doubles (infinities and signed zeros included) *)
+Theorem C05_smaller_of_two : forall a b, isnan a = false -> isnan b = false ->
+  (fmin2 a b = a \/ fmin2 a b = b) /\
+  (fmin2 a b <=? a)%float = true /\ (fmin2 a b <=? b)%float = true.
+Proof. exact fmin2_smaller. Qed.
+Print Assumptions C05_smaller_of_two.
+
+(* monotonicity, centring-free: mean of (fraction of strict steps in the direction of the flank
+   before the centre extremum) and (the same for the flank after it, opposite direction); the
+   flank before the centre rises for a peak-centred row and decays for a trough-centred one *)
+Theorem C05_monotonicity_is_mean_of_flank_fractions : forall peak sig r,
+  monotonicity_row peak sig r =
+  ((frac_true (steps peak (zslice sig (s_last r) (s_center r + 1))) +
+    frac_true (steps (negb peak) (zslice sig (s_center r) (s_next r + 1)))) / 2)%float.
+Proof. exact monotonicity_row_flanks. Qed.
+Print Assumptions C05_monotonicity_is_mean_of_flank_fractions.
+
+Theorem C05_fraction_is_count_over_length : forall l,
+  frac_true l = (FloatBase.Z2F (Z.of_nat (count_true l)) / FloatBase.Z2F (Z.of_nat (length l)))%float.
+Proof. exact frac_true_def. Qed.
+Print Assumptions C05_fraction_is_count_over_length.
+
+(* the flank slices are INCLUSIVE: a flank from extremum a to extremum b has b - a steps, step k
+   compares samples a+k and a+k+1 of the signal *)
+Theorem C05_flank_slices_are_inclusive : forall up (sig : list PrimFloat.float) (a b : Z),
+  (0 <= a)%Z -> (a <= b)%Z -> (b < Z.of_nat (length sig))%Z ->
+  length (steps up (zslice sig a (b + 1))) = Z.to_nat (b - a) /\
+  forall k, k < Z.to_nat (b - a) ->
+    nth k (steps up (zslice sig a (b + 1))) false =
+    if up then (nth (Z.to_nat a + k) sig 0 <? nth (Z.to_nat a + S k) sig 0)%float
+    else (nth (Z.to_nat a + S k) sig 0 <? nth (Z.to_nat a + k) sig 0)%float.
+Proof. exact flank_steps. Qed.
+Print Assumptions C05_flank_slices_are_inclusive.
